@@ -439,11 +439,33 @@ def replay_skips(ctx, r):
                                 continue
                             leaves = lv
                         n_skip += 1
+                        # a flag computed from a comparison: look through it to what is compared
+                        expanded = set()
+                        for l in leaves:
+                            if l[0] == "call" and (l[1] or "").startswith(("std::cmp::PartialOrd::", "std::cmp::PartialEq::")):
+                                for a in b.blocks[l[2]]["term"]["args"]:
+                                    expanded |= sl.leaves_of_operand(a)
+                            elif l[0] == "binop" and l[1] in ("Lt", "Le", "Gt", "Ge", "Eq", "Ne"):
+                                for (lhs_, op_, a_, b__) in [(st["lhs"]["l"], st["rv"]["op"], st["rv"]["a"], st["rv"]["b"])
+                                                           for st in b.stmts(l[2]) if st["k"] == "assign" and
+                                                           st["rv"]["k"] == "binop" and st["rv"]["op"] == l[1]]:
+                                    expanded |= sl.leaves_of_operand(a_) | sl.leaves_of_operand(b__)
+                            elif l[0] == "const" and l[1] in (0, 1, False, True):
+                                continue
+                            else:
+                                expanded.add(l)
+                        leaves = expanded
                         desc = sorted(fmt_leaf(l) for l in leaves)
                         leaves = set(l for l in leaves if not (l[0] == "agg" and str(l[1]).startswith("closure:")))
                         desc = sorted(fmt_leaf(l) for l in leaves)
+                        # a threshold handed to a per-segment helper as a parameter is traced to the caller
+                        from ..prov import expand_up
+                        keep = set(l for l in leaves if not (l[0] == "param" and not l[2]))
+                        leaves = keep | expand_up(ctx.world, b, leaves - keep, 3, sl)
+                        desc = sorted(fmt_leaf(l) for l in leaves)
                         ok = bool(leaves) and all(
-                            (l[-1] and "version" in l[-1][-1]) or (l[0] == "param" and l[1] == 1 and l[2])
+                            (l[-1] and "version" in l[-1][-1]) or (l[0] == "param" and l[1] == 1 and l[2]) or
+                            (l[0] == "xparam" and l[1][1] == 1 and l[2])
                             for l in leaves)
                         r.check(ok, "skip-branch", b,
                                 "the only skip in the replay loop (%s:%d) compares %s" % (
@@ -456,6 +478,111 @@ def replay_skips(ctx, r):
                     "applied twice)" % b.path)
 
 
+class _MaxEval(object):
+    """Tiny symbolic evaluation of the expression assigned to the running maximum: terms over H (the previous value,
+    an Option), its payload, V (the record's version), max(.,.) and case-on-Option - enough to decide
+    `new >= V` and `new >= H` for max(), map_or(), map(), unwrap_or(), match/if-let written any of the usual ways."""
+
+    def __init__(self, ctx, b, from_H, is_V):
+        self.ctx, self.b, self.from_H, self.is_V = ctx, b, from_H, is_V
+
+    def operand(self, b, op, env, depth=0):
+        if depth > 10:
+            return ("unk", "depth")
+        if b is self.b:
+            if self.from_H(op):
+                return ("H",)
+            if self.is_V(op):
+                return ("V",)
+        pl = place_of(op)
+        if pl is None:
+            return ("const",)
+        l = pl["l"]
+        if l in env and not [e for e in pl["p"] if e != "deref"]:
+            return env[l]
+        # a captured variable of a closure: evaluate what was captured, in the enclosing body
+        ups = [e for e in pl["p"] if isinstance(e, dict) and e.get("upvar")]
+        if ups and "__capt__" in env:
+            pb, ops = env["__capt__"]
+            k = ups[0]["f"]
+            if k < len(ops):
+                return self.operand(pb, ops[k], env.get("__penv__", {}), depth + 1)
+        if [e for e in pl["p"] if e != "deref" and not (isinstance(e, dict) and "dc" in e)
+                and not (isinstance(e, dict) and e.get("f") == 0 and "adt" in e)]:
+            return ("unk", "projection")
+        defs = b.assignments().get(l, [])
+        if len(defs) != 1:
+            return ("unk", "multi-def")
+        dbb, j, rv = defs[0]
+        if j == "term":
+            return self.call(b, rv, env, depth + 1)
+        k = rv["k"]
+        if k in ("use", "cast"):
+            return self.operand(b, rv["op"], env, depth + 1)
+        if k == "ref":
+            return self.operand(b, {"copy": rv["place"]}, env, depth + 1)
+        if k == "agg" and rv.get("vn") == "Some" and rv["ops"]:
+            return self.operand(b, rv["ops"][0], env, depth + 1)
+        if k == "agg" and rv.get("vn") == "None":
+            return ("none",)
+        return ("unk", k)
+
+    def call(self, b, t, env, depth):
+        p = term_path(t) or ""
+        last = p.split("::")[-1]
+        args = t["args"]
+        if p in ("std::cmp::Ord::max", "std::cmp::max") and len(args) == 2:
+            return ("max", self.operand(b, args[0], env, depth), self.operand(b, args[1], env, depth))
+        if last in ("deref", "clone", "copied", "cloned", "into", "from", "as_ref", "borrow") and args:
+            return self.operand(b, args[0], env, depth)
+        if p.endswith("Option::map_or") and len(args) == 3:
+            o = self.operand(b, args[0], env, depth)
+            return ("case", o, self.operand(b, args[1], env, depth), self.closure(b, t, args[2], o, env, depth))
+        if p.endswith("Option::map") and len(args) == 2:
+            o = self.operand(b, args[0], env, depth)
+            return ("case", o, ("none",), self.closure(b, t, args[1], o, env, depth))
+        if p.endswith("Option::unwrap_or") and len(args) == 2:
+            o = self.operand(b, args[0], env, depth)
+            return ("case", o, self.operand(b, args[1], env, depth), self.payload(o))
+        return ("unk", p)
+
+    @staticmethod
+    def payload(o):
+        return ("Hval",) if o == ("H",) else o
+
+    def closure(self, b, t, cl_op, o, env, depth):
+        prog = self.ctx.prog
+        pl = place_of(cl_op)
+        if pl is None or pl["p"]:
+            return ("unk", "closure")
+        cd = prog.closure_def_of_type(b.locals[pl["l"]])
+        tg = prog.bodies.get(cd) if cd else None
+        if tg is None:
+            return ("unk", "closure")
+        ops = None
+        for (dbb, j, rv) in b.assignments().get(pl["l"], []):
+            if j != "term" and rv["k"] == "agg" and rv.get("ak") == "closure":
+                ops = rv["ops"]
+        env2 = {2: self.payload(o), "__capt__": (b, ops or []), "__penv__": env}
+        return self.operand(tg, {"copy": {"l": 0, "p": []}}, env2, depth + 1)
+
+    def geq(self, term, x):
+        k = term[0]
+        if k == "V":
+            return x == "V"
+        if k in ("H", "Hval"):
+            return x == "H"
+        if k == "max":
+            return self.geq(term[1], x) or self.geq(term[2], x)
+        if k == "case":
+            o, n, s_ = term[1], term[2], term[3]
+            if o == ("H",):
+                # None branch: there is no previous value, `>= H` holds vacuously
+                return (x == "H" or self.geq(n, x)) and self.geq(s_, x)
+            return self.geq(n, x) and self.geq(s_, x)
+        return False
+
+
 def highest_version_accumulator(ctx, r):
     """The replayer returns the highest version it has seen: the returned local is seeded with the checkpoint
     version and every later assignment is `max(previous, record.version)` (or `record.version` when there was
@@ -463,32 +590,89 @@ def highest_version_accumulator(ctx, r):
     persisted one."""
     prog = ctx.prog
     from ..prov import root_local
-    for b in prog.bodies.values():
-        cbsites = [s for s in b.calls() if s.path in FN_TRAIT_CALLS and s.callee.get("rk") != "virtual"
-                   and any(how == "param" for _, how in prog.call_targets(s))
-                   and "INDEX_MUTATE" in sem_set(ctx.may.site_events(s))]
-        if not cbsites or b.is_closure:
-            continue
-        sl = Slicer(ctx.world, b)
-        # returned local
-        H = None
+
+    def canon(b, pl):
+        """(local, field names) of a place, looking through references to locals (`(*p).f` with p = &mut x is x.f)."""
+        l, proj = pl["l"], list(pl["p"])
+        for _ in range(8):
+            if proj and proj[0] == "deref":
+                defs = b.assignments().get(l, [])
+                if len(defs) == 1 and defs[0][1] != "term":
+                    rv = defs[0][2]
+                    if rv["k"] == "ref":
+                        l, proj = rv["place"]["l"], list(rv["place"]["p"]) + proj[1:]
+                        continue
+                    if rv["k"] == "use" and place_of(rv["op"]) is not None:
+                        p2 = place_of(rv["op"])
+                        l, proj = p2["l"], list(p2["p"]) + proj
+                        continue
+            break
+        return (l, tuple(e.get("n", e.get("f")) for e in proj if isinstance(e, dict) and "f" in e))
+
+    def find_H(b):
+        """The accumulator behind the returned Ok value: a local, or a field of a local struct (a progress record
+        handed to a per-segment helper by reference); its type is the version type."""
         for bb in b.normal_blocks():
             for s in b.stmts(bb):
                 if s["k"] == "assign" and s["lhs"]["l"] == 0 and not s["lhs"]["p"] and s["rv"]["k"] == "agg" \
                         and s["rv"].get("vn") == "Ok" and s["rv"]["ops"]:
                     h = root_local(b, s["rv"]["ops"][0])
-                    if isinstance(h, int) and len(b.assignments().get(h, [])) >= 2:
-                        H = h
-        if H is None:
-            r.bad("highest-local", b, "cannot find the running 'highest version' value returned by %s" % b.path)
+                    if not isinstance(h, int) or "NonZero" not in prog.ty_str(b.locals[h]):
+                        continue
+                    defs = b.assignments().get(h, [])
+                    if len(defs) >= 2:
+                        return (h, ())
+                    if len(defs) == 1 and defs[0][1] != "term" and defs[0][2]["k"] == "use":
+                        pl = place_of(defs[0][2]["op"])
+                        if pl is not None and pl["p"]:
+                            c = canon(b, pl)
+                            # a field that is written somewhere in this view (not a field that is only read)
+                            if c[1] and any(st["k"] == "assign" and st["lhs"]["p"] and canon(b, st["lhs"]) == c
+                                            for x in b.normal_blocks() for st in b.stmts(x)):
+                                return c
+        return None
+    done = set()
+    for b0 in prog.bodies.values():
+        cb0 = [s for s in b0.calls() if s.path in FN_TRAIT_CALLS and s.callee.get("rk") != "virtual"
+               and any(how == "param" for _, how in prog.call_targets(s))
+               and "INDEX_MUTATE" in sem_set(ctx.may.site_events(s))]
+        if not cb0 or b0.is_closure:
             continue
+        # the accumulator may live in the caller of a per-segment helper: the function itself if it has it, else the
+        # caller's view with just the helpers on the way inlined (the record reader stays a call: `entry.version`)
+        b = b0 if find_H(b0) is not None else None
+        if b is None:
+            from .. import flat as flatmod
+            chain = [b0.path]
+            cur = b0
+            for _ in range(3):
+                callers = [cs for cs, how in prog.callers_index().get(cur.path, []) if how == "direct"]
+                if len(callers) != 1:
+                    break
+                cur = callers[0].body
+                V = flatmod.flatten(prog, cur, lambda site, tgt, how, _c=tuple(chain): tgt.path in _c, 4)
+                if find_H(V) is not None:
+                    b = V
+                    break
+                chain.append(cur.path)
+        if b is None:
+            r.bad("highest-local", b0, "cannot find the running 'highest version' value on the replay path of %s" % b0.path)
+            continue
+        if b.path in done:
+            continue
+        done.add(b.path)
+        keys0 = set(s.key() for s in cb0)
+        cbsites = [s for s in b.calls() if s.key() in keys0]
+        sl = Slicer(ctx.world, b)
+        H = find_H(b)
+        Hl, Hf = H
         loops = {}
         for hb in b.normal_blocks():
             if any(b.dominates(hb, p) for p in b.preds(hb)):
                 loops[hb] = cfgutil.natural_loop(b, hb)
         in_loop = set().union(*loops.values()) if loops else set()
 
-        def terminals(l, depth=0, seen=None):
+        def terminals_local(l, depth=0, seen=None):
             seen = seen or set()
             out = []
             if l in seen or depth > 8:
@@ -501,24 +685,53 @@ def highest_version_accumulator(ctx, r):
                     pl = place_of(rv["op"])
                     if pl is not None and not pl["p"] and l != pl["l"] and not (1 <= pl["l"] <= b.argc) \
                             and b.assignments().get(pl["l"]):
-                        out += terminals(pl["l"], depth + 1, seen)
+                        out += terminals_local(pl["l"], depth + 1, seen)
                     else:
                         out.append((dbb, "use", rv["op"]))
                 elif rv["k"] == "agg" and rv.get("vn") == "Some" and rv["ops"]:
                     pl = place_of(rv["ops"][0])
                     if pl is not None and not pl["p"] and b.assignments().get(pl["l"]) and not (1 <= pl["l"] <= b.argc):
-                        out += terminals(pl["l"], depth + 1, seen)
+                        out += terminals_local(pl["l"], depth + 1, seen)
                     else:
                         out.append((dbb, "use", rv["ops"][0]))
                 else:
                     out.append((dbb, "other", rv))
             return out
 
+        def terminals(_ignored=None):
+            if not Hf:
+                return terminals_local(Hl)
+            out = []
+            for bb in b.normal_blocks():
+                for st in b.stmts(bb):
+                    if st["k"] != "assign":
+                        continue
+                    if canon(b, st["lhs"]) == H:
+                        rv = st["rv"]
+                        if rv["k"] == "use":
+                            pl = place_of(rv["op"])
+                            if pl is not None and not pl["p"] and b.assignments().get(pl["l"]) and \
+                                    not (1 <= pl["l"] <= b.argc):
+                                out += terminals_local(pl["l"])
+                            else:
+                                out.append((bb, "use", rv["op"]))
+                        else:
+                            out.append((bb, "other", rv))
+                    elif not st["lhs"]["p"] and st["lhs"]["l"] == Hl and st["rv"]["k"] == "agg" and \
+                            st["rv"].get("ak") == "adt" and Hf[0] in (st["rv"].get("fields") or []):
+                        # the progress record is built: its field starts with this value
+                        op = st["rv"]["ops"][st["rv"]["fields"].index(Hf[0])]
+                        out.append((bb, "use", op))
+            return out
+
         def from_H(op):
             pl = place_of(op)
             seen = set()
             while pl is not None:
-                if pl["l"] == H:
+                if Hf:
+                    if pl["p"] and canon(b, pl)[0] == Hl and canon(b, pl)[1][:len(Hf)] == Hf:
+                        return True
+                elif pl["l"] == Hl:
                     return True
                 if pl["l"] in seen:
                     return False
@@ -551,11 +764,11 @@ def highest_version_accumulator(ctx, r):
                         "the running maximum is seeded at %s with %s" % (where, sorted(fmt_leaf(l) for l in lv) or kind), where)
                 continue
             n_upd += 1
-            if kind == "call" and term_path(x) in ("std::cmp::Ord::max", "std::cmp::max"):
-                a0, a1 = x["args"][0], x["args"][1]
-                ok = (from_H(a0) and is_record_version(a1)) or (from_H(a1) and is_record_version(a0))
-                r.check(ok, "highest-update:max", b, "update at %s: max(previous, record.version)" % where,
-                        "the max() at %s does not combine the previous maximum with the record's version" % where, where)
+            ev = _MaxEval(ctx, b, from_H, is_record_version)
+            term = ev.call(b, x, {}, 0) if kind == "call" else (ev.operand(b, x, {}) if kind == "use" else ("unk", kind))
+            if kind == "call" and ev.geq(term, "V") and ev.geq(term, "H"):
+                r.ok("highest-update:max", b, "update at %s: the new value is at least the previous maximum and the "
+                                              "record's version" % where)
             elif kind == "use" and is_record_version(x):
                 # only where there is no previous value, or under `version > previous`
                 ok = False
@@ -563,7 +776,8 @@ def highest_version_accumulator(ctx, r):
                     c = cfgutil.switch_condition(b, sw)
                     if not c:
                         continue
-                    if c[0] == "discr" and not c[1]["p"] and c[1]["l"] == H:
+                    if c[0] == "discr" and ((not Hf and not c[1]["p"] and c[1]["l"] == Hl) or
+                                            (Hf and canon(b, c[1]) == H) or from_H({"copy": c[1]})):
                         e = cfgutil.switch_edges(b, sw)
                         none_t = e.get(0, e["otherwise"] if 1 in e else None)
                         if none_t is not None and cfgutil.edge_dominates(b, (sw, none_t), dbb):
